@@ -14,6 +14,7 @@ import LncModel.Stream
 import LncModel.Flush
 import LncModel.Cipher
 import LncModel.Record
+import LncModel.Noise
 /-
   Line-protocol driver: one operation per input line, one canonical result per
   output line.  Imports model files only (no Mathlib, no proofs) so it links as
@@ -51,6 +52,65 @@ def parseMsgs (s : String) : Option (List Bytes) :=
 
 def showMsgs (ms : List Bytes) : String :=
   if ms.isEmpty then "none" else ",".intercalate (ms.map hexOrDash)
+
+open Lnc.Mailbox.Noise in
+def noiseRun (pat imin imax rmin rmax pwSame iExp rExp plen script : String) : String :=
+  -- key ids: initiator static 1 / ephemeral 2, responder static 3 / ephemeral 4; a wrong expected key is pub 9
+  match imin.toNat?, imax.toNat?, rmin.toNat?, rmax.toNat?, parseBool pwSame with
+  | some imin, some imax, some rmin, some rmax, some pwSame =>
+    let kk := pat = "kk"
+    let expKey (flag : String) (right : Nat) : Option Pt :=
+      if flag = "1" then some (.pub right) else if flag = "0" then some (.pub 9) else none
+    let payload : Option Bytes := if plen = "-" then none else plen.toNat?.map fun n => (List.range n).map fun i => UInt8.ofNat ((i + 3) % 251)
+    let ci : Cfg := ⟨1, 2, expKey iExp 3, 7, none, imin, imax⟩
+    let cr : Cfg := ⟨3, 4, expKey rExp 1, if pwSame then 7 else 8, payload, rmin, rmax⟩
+    let rules : List (Nat × Nat × String) := if script = "none" then [] else
+      (script.splitOn ",").filterMap fun t =>
+        match t.splitOn "=" with
+        | [lhs, rw] =>
+          match (lhs.drop 1).toString.splitOn "f" with
+          | [a, f] => do some ((← a.toNat?), (← f.toNat?), rw)
+          | _ => none
+        | _ => none
+    let mitm : Mitm := fun act fields =>
+      fields.zipIdx.map fun (fld, idx) =>
+        match rules.find? (fun r => r.1 = act ∧ r.2.1 = idx) with
+        | none => fld
+        | some (_, _, rw) =>
+          match fld with
+          | .ver _ => if rw.startsWith "v" then .ver ((rw.drop 1).toString.toNat?.getD 0) else fld
+          | .point _ => if rw = "pinv" then .point none else if rw = "poth" then .point (some (.other 99)) else fld
+          | .ct _ => if rw = "cgarb" then .ct (.garbage idx) else fld
+    let p := if kk then kkPattern else xxPattern
+    let (ri, rr) := run p ci cr mitm
+    let writesOf (initiator : Bool) (res : SideRes) : Nat :=
+      match res with
+      | .ok _ => (p.msgs.filter fun m => m.initiator = initiator).length
+      | .newFail _ => 0
+      | .fail a why =>
+        (p.msgs.filter fun m => m.initiator = initiator ∧ (m.act < a)).length
+          -- a writer that failed while writing act a did not write it; a reader failing at a wrote everything before
+          + (if why = "__never__" then 1 else 0)
+    let showSide (initiator : Bool) (res : SideRes) (peerStatic : Nat) (peerPayload : Option Bytes) : String :=
+      match res with
+      | .ok d =>
+        let rs := match d.remoteStatic with | some q => if q = Pt.pub peerStatic then "1" else "0" | none => "-"
+        let auth := if initiator then
+            (match d.authData, peerPayload with
+             | some a, some b => if a = b then "eq" else "neq"
+             | some a, none => if a.isEmpty then "eq" else "neq"
+             | none, none => "eq"
+             | none, some b => if b.isEmpty then "eq" else "neq")
+          else "-"
+        s!"ok:v{d.version}:rs{rs}:sr{showBool d.setRemote}:auth{auth}"
+      | _ => s!"fail:w{writesOf initiator res}"
+    let cross := match ri, rr with
+      | .ok a, .ok b =>
+        let keys := a.sendKey = b.recvKey ∧ a.recvKey = b.sendKey
+        s!"keys{showBool (decide keys)}:dg{showBool (decide (a.digest = b.digest))}"
+      | _, _ => "-"
+    s!"I={showSide true ri 3 cr.payload} R={showSide false rr 1 none} X={cross}"
+  | _, _, _, _, _ => "bad-op"
 
 def pureStep (toks : List String) : String :=
   match toks with
@@ -236,6 +296,8 @@ def pureStep (toks : List String) : String :=
         ",".intercalate (res.map fun r => match r with | .ok j => s!"ok:{j}" | .err => "err")
       | none => "bad-op"
     | _, _ => "bad-op"
+  | ["noise.run", pat, imin, imax, rmin, rmax, pwSame, iExp, rExp, plen, script] =>
+    noiseRun pat imin imax rmin rmax pwSame iExp rExp plen script
   | ["q.mks", n] => (n.toNat?).elim "bad-op" fun n => toString (mkS n)
   | _ => "bad-op"
 
